@@ -16,9 +16,24 @@ lsum = z3.Function('lsum', z3.ArraySort(I, R), I, R)   # sum of the first n entr
 
 def lsum_axioms():
     a = z3.Const('ls_a', z3.ArraySort(I, R))
+    b = z3.Const('ls_b', z3.ArraySort(I, R))
     n = z3.Int('ls_n')
+    i = z3.Int('ls_i')
     return [z3.ForAll([a], lsum(a, 0) == 0, patterns=[lsum(a, 0)]),
-            z3.ForAll([a, n], z3.Implies(n > 0, lsum(a, n) == lsum(a, n - 1) + a[n - 1]), patterns=[lsum(a, n)])]
+            z3.ForAll([a, n], z3.Implies(n > 0, lsum(a, n) == lsum(a, n - 1) + a[n - 1]), patterns=[lsum(a, n)]),
+            # congruence (a lemma about finite sums, by induction on n; not derivable by the solver from the two
+            # defining equations): sequences that agree on [0, n) have the same sum
+            z3.ForAll([a, b, n], z3.Implies(z3.ForAll([i], z3.Implies(z3.And(0 <= i, i < n), a[i] == b[i])),
+                                            lsum(a, n) == lsum(b, n)),
+                      patterns=[z3.MultiPattern(lsum(a, n), lsum(b, n))])]
+
+
+def sum_term(arr, n):
+    """sum of arr[0..n): the recursive function lsum, or - in bounded refutation mode - the explicit ground sum"""
+    if sym.BOUND is not None:
+        sym.SIDE.append(n <= sym.BOUND)
+        return z3.Sum([z3.If(n > k, arr[k], z3.RealVal(0)) for k in range(sym.BOUND)])
+    return lsum(arr, n)
 
 
 def eval_args(ex, e, st, fr):
@@ -217,7 +232,7 @@ def call_name(ex, name, pos, kw, st, fr, e):
                 i = z3.Int('sm_i')
                 arr = sym.defarray(st, i, z3.ToReal(arr[i]), 'toreal')
             ex.uses_lsum = True
-            return [(vreal(lsum(arr, h.llen(x.t))), st)]
+            return [(vreal(sum_term(arr, h.llen(x.t))), st)]
         raise Unsupported(f'sum of {x.ty}')
     if name == 'sorted':
         return sorted_contract(ex, pos, kw, st, fr)
